@@ -21,6 +21,7 @@ type Obligation struct {
 	Src    string // source of the clause
 	Pos    string
 	Side   bool // safety side condition (not a property obligation)
+	TimeoutMs int
 }
 
 // State is the symbolic heap at a program point.
